@@ -83,9 +83,9 @@ def static_configs(thorough, seed):
             big = (k == kmax and k >= 3)
             mss = list(U.multisets(len(lat), k))
             if big and not thorough:
-                # quick tier: one residue class (mod 3) of the largest-k
+                # quick tier: one residue class (mod 6) of the largest-k
                 # placements, rotating with the seed; thorough takes all
-                mss = mss[seed % 3::3]
+                mss = mss[seed % 6::6]
             for ms in mss:
                 pts = [lat[i] for i in ms]
                 # for k <= 2 also a smoothing length that makes the cell
@@ -224,16 +224,24 @@ def _static_job(args):
 # ---------------------------------------------------------------------------
 # update histories on one long-lived NNPS object
 # ---------------------------------------------------------------------------
-def history_ops(dim, lat, k, narr):
+def history_ops(dim, lat, k, narr, thorough=False):
+    """Operation alphabet of the update histories.  Move / append targets:
+    a spread of lattice points (first, middle, last and two in between;
+    all points in 1-D and in the thorough tier)."""
+    if thorough or len(lat) <= 5:
+        tgt = list(range(len(lat)))
+    else:
+        n = len(lat)
+        tgt = sorted(set([0, n // 4, n // 2, (3 * n) // 4, n - 1]))
     ops = []
     for i in range(k):
-        for p in range(len(lat)):
+        for p in tgt:
             ops.append(('move', i, p))
         for hv in (H0, 3 * H0):
             ops.append(('seth', i, hv))
         ops.append(('remove', i))
     for a in range(narr):
-        for p in range(0, len(lat), 2):
+        for p in tgt[::2]:
             for hv in (H0, 3 * H0):
                 ops.append(('append', a, p, hv))
     return ops
@@ -299,7 +307,7 @@ def _history_job(args):
         dim = base['dim']
         lat = U.lattice(dim, 3)
         k = len(base['pts'])
-        ops = history_ops(dim, lat, k, 2)
+        ops = history_ops(dim, lat, k, 2, thorough)
         for name, kw in variants:
             kwl = [list(x) for x in sorted(kw.items())]
             for seq in itertools.product(ops, repeat=depth):
@@ -514,6 +522,8 @@ def run(ctx):
 
     # histories
     bases = history_bases(ctx.thorough)
+    if not ctx.thorough:
+        bases = bases[ctx.seed % 2::2]
     depth = 2
     hstat = [0, 0]
 
